@@ -11,7 +11,7 @@ CLAIMED = {
          "Connections are built by an independent sender-side implementation of RFC 9000/9001 (all four suites, CID lengths 0..20, Retry, 0-RTT, CRYPTO splitting/reordering, coalescing, pn gaps and lengths, key updates, CID switches) and the exported datagram list is compared with the STREAM data each input datagram carried.",
          "trusted: lib/quicref.py (RFC transcription), cryptography primitives; open finding F10 (0-RTT, suite not offered first) is excluded by construction and probed"),
  "C03": ("fault_enumeration", "4 C03", "fault injection with complete enumeration of fault positions per generated scenario + Hypothesis single faults + atheris on the UDP entry point; metamorphic oracle against the fault-free run",
-         "For every generated scenario all six position faults are applied at every packet of the victim, all single-bit flips of ClientHello/ServerHello are enumerated, key-log, suite and foreign-traffic faults are drawn; bystander exports must be identical to the fault-free run and the victim may only lose a suffix. Scenario space itself is sampled.",
+         "For every generated scenario all seven position faults are applied at every packet of the victim, all single-bit flips of ClientHello/ServerHello are enumerated, key-log, suite and foreign-traffic faults are drawn; bystander exports must be identical to the fault-free run and the victim may only lose a suffix. Scenario space itself is sampled.",
          "trusted: reference encoders; QUIC victims may export an order-preserving sub-list instead of a prefix (documented weakening)"),
  "C04": ("exploration", "4 C04", "metamorphic testing: combined capture vs. per-connection solo captures over generated order-preserving merges (Hypothesis)",
          "2-10 TLS/QUIC connections in adversarial endpoint topologies are interleaved by a drawn order-preserving merge with a shuffled common key log; each connection's packets in the combined export must equal its solo export byte for byte and time for time, and nothing else may be exported.",
